@@ -609,6 +609,13 @@ func c14Plans() []c14Plan {
 }
 
 func runC14(c *Ctx) {
+	// a store that no longer behaves like the model can make the harness itself trip (an unexpected
+	// error, an index out of range): report that as a broken correspondence, not as a crash
+	defer func() {
+		if r := recover(); r != nil {
+			c.mismatch("harness-panic", fmt.Sprintf("the harness could not drive the store as the model expects: %v", r), nil)
+		}
+	}()
 	c.rep.Rule = "concurrent runs on both MetaStores (MemoryMetaStore; FileSystemDataStore as MetaStore), FileSystemDataStore as DataStore: 2-4 acknowledged files, then 1-3 queries x 0-2 merges x 0-3 flushes " +
 		"under a cooperative scheduler in which every store-level action is one step; four scripted windows (query between a merge's publish and its Update; snapshot/listing, then a whole merge, then the reads; reads interleaved with the source removal; flush and ack during a query) " +
 		"and randomly scheduled runs; plus two direct probes of MemoryMetaStore (Update between yields of a running iterator; Update attempted while the snapshot holds the read lock). " +
@@ -619,7 +626,6 @@ func runC14(c *Ctx) {
 	must(os.MkdirAll(scratch, 0o755))
 	sh := c.newShard("f14", runnerFM, "caseM", "mismatchesM", "violationsM")
 	sh.limit = 60
-	sh.prelude = []string{"Open Scope nat_scope."}
 	c14MemProbes(c)
 	plans := c14Plans()
 	reps := c.pick(16, 300)
@@ -920,7 +926,7 @@ func c14Scenario(c *Ctx, sh *shard, dir string, n int, p c14Plan, fsMeta bool) {
 	if d3 {
 		desc["sig"] = sigD3
 	}
-	sh.add(c, term, desc)
+	sh.add(c, "("+term+")%nat", desc)
 	c.count([]string{"C14"}, term, nontrivial, map[string]any{"kind": kind, "plan": p.name, "steps": len(h.sched.log), "queries": qdesc})
 	c.dist("c14_plan", kind+" "+p.name)
 	c.rep.TracesValidated++
